@@ -79,3 +79,83 @@ def st(x):
     if isinstance(x, (S, SI)):
         return ST.of(x)
     return x
+
+
+class exact_floats:
+    """context manager: float constants met in the code are taken as the exact dyadic rational they
+    are (vf.sym.LIFT_FLOATS = False).  Needed where the code under test adds a small tolerance such as
+    1e-8: the default lifting rule maps |x| < 1e-7 to 0 or to the contradictory symbol sqrt(0) > 0."""
+
+    def __enter__(self):
+        from . import sym
+        self.old = sym.LIFT_FLOATS
+        sym.LIFT_FLOATS = False
+
+    def __exit__(self, *a):
+        from . import sym
+        sym.LIFT_FLOATS = self.old
+
+
+# --------------------------------------------------------------------------
+# opaque functions as atoms (user callables, expm, quadrature) -- C15
+# --------------------------------------------------------------------------
+import z3
+from fractions import Fraction
+from . import sym as _sym
+
+
+def _key(x):
+    x = S.of(x)
+    out = []
+    for p in (x.re, x.im):
+        if isinstance(p, Fraction):
+            out.append(str(p))
+        else:
+            out.append(z3.simplify(_sym.zr(p), som=True).sexpr())
+    return tuple(out)
+
+
+class Opaque:
+    """Uninterpreted function realised by atoms: one fresh constant (vector) per distinct argument
+    tuple, arguments compared after z3.simplify(som=True).  Only congruence is assumed: equal
+    arguments give the same value; different arguments give unrelated values (so a proof can only use
+    that the code passed the same arguments; a refutation is replayed with `concrete`).
+    `concrete(*args)` is used when every argument is concrete (frac / real modes and the constructor
+    probes of the real code)."""
+
+    def __init__(self, name, concrete, shape=(), cplx=False):
+        self.name, self.concrete, self.shape, self.cplx = name, concrete, shape, cplx
+        self.table = {}
+        self.calls = []         # argument tuples in call order
+
+    def _symbolic(self, a):
+        if isinstance(a, np.ndarray):
+            return a.dtype == object and any(not S.of(v).is_concrete() for v in a.flat)
+        return isinstance(a, (S, SI)) and not S.of(a).is_concrete()
+
+    def __call__(self, *args):
+        self.calls.append(args)
+        if not any(self._symbolic(a) for a in args):
+            return self.concrete(*args)
+        key = []
+        for a in args:
+            if isinstance(a, np.ndarray):
+                key.append(tuple(_key(v) for v in a.flat))
+            else:
+                key.append(_key(a))
+        key = tuple(key)
+        if key not in self.table:
+            k = len(self.table)
+
+            def atom(suffix):
+                n = "%s!%d%s" % (self.name, k, suffix)
+                return S(z3.Real(n + "r"), z3.Real(n + "i") if self.cplx else Fraction(0))
+            if self.shape == ():
+                self.table[key] = atom("")
+            else:
+                out = np.empty(self.shape, dtype=object)
+                for idx in np.ndindex(*self.shape):
+                    out[idx] = atom("_" + "_".join(map(str, idx)))
+                self.table[key] = out
+        v = self.table[key]
+        return v.copy() if isinstance(v, np.ndarray) else v
